@@ -4,9 +4,11 @@ from vlib.core import Case
 
 ID = "C11"
 LEAN_MODULE = "Ctrmml.Properties.C11"
-THEOREMS = ["C11_fm_roundtrip", "C11_fm_2op_spec", "C11_fm_base_inv", "C11_fm_2op_base", "C11_psg_frames", "C11_psg_marks", "C11_pitch_node", "C11_pitch_node_limit",
+THEOREMS = ["C11_fm_roundtrip", "C11_fm_2op_spec", "C11_fm_base_inv", "C11_fm_2op_base", "C11_psg_frames", "C11_psg_marks", "C11_psg_loop_checked",
+            "C11_psg_marks_fit", "C11_pitch_node", "C11_pitch_node_limit", "C11_pitch_step_checked",
             "C11_pitch_vibrato", "C11_vibrato_rate", "C11_pitch_decode_compact", "C11_pitch_decode_extended", "C11_pitch_loop_checked",
-            "C11_pitch_form",
+            "C11_pitch_form", "C11_psg_slide_binary64", "C11_psg_binary64", "C11_pitch_readback", "C11_full_partial",
+            "C11_full_binary64_partial",
             "C11_psg_slide_rat_partial"]
 LEVEL = "proof"
 STREAM = "data.bank"
@@ -18,16 +20,23 @@ RULE = ("instrument/envelope definitions fed as tag lists into a Song (and, for 
         "redefined id), definitions without a type, PSG envelopes over values 0..15 with slides, lengths 1..255, default length, sustain and loop marks, "
         "the exhaustive family of single PSG slides (initial,target,length) [quick: all with length<=24 plus a sample; thorough: all 65280], "
         "pitch envelopes with integer and decimal nodes in +-127 semitones, lengths 1..1000, vibrato macro, loop mark, with and without "
-        "noextpitch, envelopes of 254..258 nodes in every form (the 256-node limit) and lengths / vibrato rates around 2^30, 2^31, 2^32. non-trivial = at least one definition that reaches an encoder (tag of its kind); distinct by request text")
-EXPLANATION = ("theorems over Model/MdsData (generic in the floating-point arithmetic) + Spec/MdsData decoders; the model (run with IEEE binary64 "
-               "= Lean Float) is compared byte for byte with mdsdrv.cpp on every case, and the independent decoders decodeFm / expandPsg / "
-               "runPitchEnv are applied to the real data-bank bytes")
+        "noextpitch, envelopes of 254..258 nodes in every form (the 256-node limit) and lengths / vibrato rates around 2^30, 2^31, 2^32, "
+        "PSG envelopes with 253..258 envelope bytes in front of the loop mark (the byte limit of the loop position), pitch nodes whose step per frame "
+        "is around +-128 semitones (the 16-bit limit of the step) in every form. non-trivial = at least one definition that reaches an encoder (tag of its kind); distinct by request text")
+EXPLANATION = ("theorems over Model/MdsData (generic in the floating-point arithmetic, instantiated for binary64 written out in Lean = Arith.b64) + "
+               "Spec/MdsData decoders; the model is run with the hardware doubles (Lean Float) and compared byte for byte with mdsdrv.cpp on every case, "
+               "run a second time with Arith.b64 and compared with the first run (judge verdict 'fail b64' on any difference), and the independent "
+               "decoders decodeFm / expandPsg / runPitchEnv are applied to the real data-bank bytes")
 ASSUMPTIONS = ["C++ double arithmetic is IEEE-754 binary64 round-to-nearest without excess precision (x86-64 SSE2); glibc strtod/printf are correctly rounding",
-               "PSG slide shape for binary64 (first frame = initial, last = target, monotone) is the hypothesis SlideOK of C11_psg_frames; it is a finite "
-               "statement (16*16*255 slides) checked exhaustively against the real code by the psg-slide family, and proved for exact rationals only for a partial range",
+               "Arith.b64 (Model/MdsData: sign, 53-bit significand, unbounded exponent, every operation = exact result rounded to nearest even by B64.round) "
+               "is what models the double arithmetic in C11_psg_slide_binary64 / C11_psg_binary64; it has no overflow, subnormals, infinities, NaN or signed "
+               "zero (not reachable from tokens of fewer than 300 digits); its agreement with the hardware doubles is checked on every request of every run "
+               "(all 65280 single slides in the thorough tier), not proved",
+               "the exact-decimal pitch clauses (PitchExact, hypothesis of C11_full_partial) are decided per case by the judge, not proved",
                "pcm instruments are not modelled here (property C14)",
                "token parsing (strtol/strtod on tag items) is tied by correspondence only; theorems start from the parsed numbers"]
-TRUSTED = ["IEEE-754 binary64 semantics of Lean's Float = the C++ double (driver side of the model)"]
+TRUSTED = ["IEEE-754 binary64 semantics of Lean's Float = the C++ double (driver side of the model)",
+           "Arith.b64 = IEEE-754 binary64 on the values the encoders compute (Lean-side model of the double operations, compared with Float by the driver)"]
 
 FM_FIELDS = [32, 32, 32, 16, 16, 128, 4, 16, 8, 16]  # AR DR SR RR SL TL KS ML DT SSG
 
@@ -167,9 +176,25 @@ CORPUS = [
     "ins ; @2 fm " + " ".join(FM2) + " ; @24 2op 2 5 5 4 4 0 ; @25 2op 2 4 4 3 3 5 ; @26 2op 2 7 7 5 5 -4",
     "ins ; @10 psg 1 4 6 8 10 12 13 14 15 ; @11 psg 15>10 ; @12 psg 15:10 15>0:100 l:40 15 14 13 ; @13 psg 15 14 / 13>0:7 ; @14 psg 0>14:7 | 15 10 5 0 5 10",
     "ins ; @m1 0 4 7 ; @m2 0>12:10 | V0:1:5 ; @m3 V0:0.5:3 ; @m4 0:10 | 0>1:5 1>-1:10 -1>0:5",
-    # float -> int16 overflow of the per-frame step (undefined behaviour in add_pitch_node)
+    # float -> int16 overflow of the per-frame step (was undefined behaviour in add_pitch_node; an InputError since f788cbf),
+    # the largest steps that still fit (+-127.99 semitones per frame), in every form
     "ins ; @m2 -127>127:1",
     "ins ; @m2 100>-100:1 0",
+    "ins opt=noextpitch ; @m2 -127>127:1",
+    "ins opt=noextpitch ; @m2 100>-100:1 0",
+    "ins ; @m2 0 -127>127:1 ; @1 psg 15",
+    "ins ; @m2 -64>63.99:1",
+    "ins ; @m2 -64>64:1",
+    "ins ; @m2 64>-64:1",
+    "ins ; @m2 64>-64.01:1",
+    "ins ; @m2 -127>127:2",
+    "ins ; @m2 -127>127:1 0",
+    "ins ; @m2 0>127:1 | -127>127.5:2",
+    "ins opt=noextpitch ; @m2 -64>63.99:1",
+    "ins opt=noextpitch ; @m2 64>-64:1",
+    "ins ; @m2 V0:300:1",
+    "ins ; @m2 V0:255:1",
+    "insmml " + "@M1 -127>127:1\n".encode().hex(),
     # compact vs extended, with and without noextpitch
     "ins ; @m3 0>100:2",
     "ins opt=noextpitch ; @m3 0>100:2",
@@ -252,8 +277,21 @@ CORPUS = [
     "ins ; @m1 0>1:65281 ; @1 psg 15",
     # float vs exact-rational difference in a PSG slide (frame 3 is 0 in binary64, 1 in exact arithmetic)
     "ins ; @10 psg 0>1:7",
-    # PSG loop position above 255 is emitted as one byte (wraps); the pitch twins are an InputError since 54bd60e
+    # PSG loop position above 255: was emitted as one byte (wrapped), an InputError since ff36345; position 255 is the last
+    # accepted one, 256 the first rejected; sustain bytes count; without a loop mark any size is accepted; the error stops read_song;
+    # the pitch twins are an InputError since 54bd60e
     "ins ; @1 psg " + " ".join(["15", "14"] * 130) + " | 3 2",
+    "ins ; @1 psg " + " ".join(["15", "14"] * 127) + " 15 | 3 2",
+    "ins ; @1 psg " + " ".join(["15", "14"] * 128) + " | 3 2",
+    "ins ; @1 psg " + " ".join(["15", "14"] * 128) + " |",
+    "ins ; @1 psg " + " ".join(["15", "14"] * 128) + " 13",
+    "ins ; @1 psg " + " ".join(["15", "14", "/"] * 85) + " | 3",
+    "ins ; @1 psg " + " ".join(["15", "14", "/"] * 85) + " 13 | 3",
+    "ins ; @1 psg | " + " ".join(["15", "14"] * 200),
+    "ins ; @1 psg " + " ".join(["15", "14"] * 100) + " | " + " ".join(["15", "14"] * 100),
+    "ins ; @1 psg 15:255 14:255 15:255 14:255 15:255 14:255 15:255 14:255 15:255 14:255 15:255 14:255 15:255 14:255 15:255 14:255 | 3",
+    "ins ; @1 psg " + " ".join(["15", "14"] * 130) + " | 3 2 ; @2 psg 15",
+    "insmml " + ("@1 psg " + " ".join(["15", "14"] * 130) + " | 3 2\n").encode().hex(),
     "ins ; @m1 " + " ".join(["0", "1"] * 130) + " | 3 2",
     "ins ; @m1 " + " ".join(["0>100:2", "1"] * 130) + " 0>1:5",
     # errors
@@ -364,6 +402,92 @@ def limit_family(rng, tier):
                 yield Case(req(groups), tags_of(groups, False) + ["pitch-limit:rate"], "pitch-limit")
 
 
+def psg_limit_family(rng, tier):
+    """PSG envelopes whose loop mark has 253..258 envelope bytes in front of it (the byte limit of fix ff36345), built from
+    single values, merged runs (one byte per 15 frames), slides and sustain marks; with and without values behind the mark"""
+    for nbytes in [253, 254, 255, 256, 257, 258, 300]:
+        for form in ["singles", "runs", "sustains", "slides", "mixed", "no-loop", "loop-first", "two-loops"]:
+            for rep_ in range(1 if tier == "quick" else 3):
+                toks = []
+                if form in ("singles", "no-loop", "loop-first", "two-loops"):
+                    v = rng.randrange(16)
+                    for k in range(nbytes):
+                        v = (v + rng.randrange(1, 16)) % 16
+                        toks.append(str(v))
+                elif form == "runs":
+                    # 15 frames per byte: a value held for 15*q+r frames takes q (+1) bytes
+                    left = nbytes
+                    v = rng.randrange(16)
+                    while left > 0:
+                        q = min(left, rng.randrange(1, 18))
+                        v = (v + rng.randrange(1, 16)) % 16
+                        n = 15 * (q - 1) + rng.randrange(1, 16)
+                        if n > 255:
+                            q = 17
+                            n = 255
+                            if q > left:
+                                q, n = left, 15 * left
+                        toks.append("%d:%d" % (v, n))
+                        left -= q
+                elif form == "sustains":
+                    k = 0
+                    while k < nbytes:
+                        toks.append(str(rng.randrange(16)))
+                        k += 1
+                        if k < nbytes and rng.random() < 0.4:
+                            toks.append("/")
+                            k += 1
+                    # two equal neighbours would merge: separate them
+                    toks = [t if i == 0 or t == "/" or toks[i - 1] != t else str((int(t) + 1) % 16) for i, t in enumerate(toks)]
+                else:
+                    # slides expand to several bytes: the oracle (model) decides the size, the family only aims near the limit
+                    k = 0
+                    while k < nbytes - 16:
+                        a, b = rng.randrange(16), rng.randrange(16)
+                        toks.append("%d>%d" % (a, b) if a != b else str(a))
+                        k += abs(a - b) + 1
+                    toks += [str((j * 7) % 16) for j in range(nbytes - k)]
+                if form == "loop-first":
+                    toks = ["|"] + toks
+                elif form == "two-loops":
+                    toks = toks[:10] + ["|"] + toks[10:] + ["|"]
+                elif form != "no-loop":
+                    toks = toks + ["|"]
+                if rng.random() < 0.7:
+                    toks += [str(rng.randrange(16)) for _ in range(rng.randrange(1, 4))]
+                groups = [("@1", ["psg"] + toks)]
+                if rng.random() < 0.3:
+                    groups.append(("@2", ["psg", "15", "14"]))
+                yield Case(req(groups), tags_of(groups, False) + ["psg-limit:" + form, "psg-bytes:%d" % nbytes], "psg-limit")
+
+
+def steep_family(rng, tier):
+    """pitch nodes whose per-frame step is around the int16 limit (+-128 semitones per frame, fix f788cbf): single nodes,
+    nodes behind others, in the compact pass, the extended pass and under noextpitch, steps reached through the length"""
+    spans = [(-64, 63), (-64, 64), (64, -64), (63, -64), (-127, 127), (127, -127), (-127, 0), (0, 127), (-100, 100), (100, -100),
+             (-127, 1), (-126, 2), (0, -127)]
+    for a, b in spans:
+        for n in [1, 2, 3]:
+            for noext in (False, True):
+                for form in ["single", "behind", "front", "decimal"]:
+                    if form == "decimal":
+                        tok = "%d>%d.%s:%d" % (a, abs(b) if b >= 0 else b, rng.choice(["99", "5", "996", "01"]), n)
+                    else:
+                        tok = "%d>%d:%d" % (a, b, n)
+                    toks = {"single": [tok], "behind": ["0", "1>2:3", tok], "front": [tok, "0"], "decimal": [tok]}[form]
+                    if rng.random() < 0.2:
+                        toks = ["|"] + toks
+                    groups = [("@m1", toks)]
+                    if rng.random() < 0.3:
+                        groups.append(("@1", ["psg", "15"]))
+                    yield Case(req(groups, noext), tags_of(groups, noext) + ["pitch-steep:" + form], "pitch-steep")
+    # vibrato depth: the middle node spans 2*depth/2 semitones in 2*rate frames
+    for depth in [120, 127, 128, 200, 254, 255, 256, 300, 510, 512, 600]:
+        for rate in [1, 2]:
+            groups = [("@m1", ["V0:%d:%d" % (depth, rate)])]
+            yield Case(req(groups), tags_of(groups, False) + ["pitch-steep:vibrato"], "pitch-steep")
+
+
 def mml_text(rng):
     lines = []
     kind = []
@@ -407,6 +531,8 @@ def cases(rng, tier):
     yield from slide_family(rng, tier)
     yield from ref2op_family(rng, tier)
     yield from limit_family(rng, tier)
+    yield from psg_limit_family(rng, tier)
+    yield from steep_family(rng, tier)
     big = tier != "quick"
     # FM + all 2op derivations
     for i in range(1500 if big else 120):
@@ -535,38 +661,17 @@ def finding_key(case, impl, judge):
     if impl.startswith("crash") or impl == "timeout" or impl.startswith("uncaught"):
         m = re.search(r"at .*?(\w+\.cpp:\d+)", impl)
         return "crash:" + (m.group(1) if m else impl.split(" ")[1] if " " in impl else impl)
-    big = big_group(case.req)
+    if judge.startswith("fail b64"):
+        return "b64"
+    # (a PSG loop position above 255, more than 256 pitch nodes, a pitch loop mark behind the 256th node and a pitch step
+    # outside 16 bits are InputErrors now: no index-overflow / step-overflow keys)
     if "psg" in judge.lower():
-        return "psg:index-overflow" if big else "psg"
+        return "psg"
     if "@m" in judge:
-        # (more than 256 nodes, or a loop mark behind the 256th, is an InputError now: no pitch:index-overflow key)
-        # step overflow: a written node whose per-frame step does not fit 16 bits
-        if step_overflow(case.req):
-            return "pitch:step-overflow"
         return "pitch"
     if "2op" in judge:
         return "fm2op"
     return "fm"
-
-
-def big_group(reqline):
-    """a definition with more than 255 items: byte / node indices no longer fit one byte"""
-    if not reqline.startswith("ins "):
-        return False
-    return any(len(g.split()) > 256 for g in reqline[4:].split(";"))
-
-
-def step_overflow(reqline):
-    if reqline.startswith("insmml "):
-        try:
-            reqline = bytes.fromhex(reqline.split()[1]).decode("latin-1")
-        except Exception:
-            pass
-    for m in re.finditer(r"(-?\d+(?:\.\d+)?)>(-?\d+(?:\.\d+)?):(\d+)", reqline):
-        a, b, n = float(m.group(1)), float(m.group(2)), int(m.group(3))
-        if n >= 1 and abs(b - a) * 256 / n >= 32768:
-            return True
-    return False
 
 
 def shrink(reqline):
@@ -596,12 +701,17 @@ def shrink(reqline):
 TECHNIQUE = "Lean 4 proof (bit-level arithmetic, codec invariants generic in the floating-point arithmetic) + differential correspondence model<->mdsdrv.cpp"
 LEVEL_TEXT = ("Machine-checked theorems over a Lean model of MDSDRV_Data: every in-range FM definition decodes back from its 30-byte register image "
               "(operators in hardware order, AM flag, transpose byte); a 2op definition is its base patch with only the multipliers, the fourth operator's "
-              "level and the transpose replaced; for every floating-point arithmetic whose single slides have the slide shape (hypothesis SlideOK), every "
-              "PSG envelope expands to the written frames with sustain/loop marks at the written places (merging of equal frames, the 15-frame cap and "
-              "the end/loop command are handled by the proof); pitch envelopes: node structure, the 256-node limit, both read-back forms, vibrato; "
-              "a 2op base is always a 30-byte FM image (state invariant of read_song). The model "
-              "runs IEEE binary64 and is tied to mdsdrv.cpp byte for byte on the generated definitions.")
-LEVEL_NOTE = ("Partial: SlideOK for binary64 is not proved but checked exhaustively against the real code (65280 slides in the thorough tier); the "
-              "exact-decimal pitch clauses (start = floor(256*initial), error below one step per frame) are checked by the independent decoder runPitchEnv on the "
-              "real bytes of every generated definition, not proved; a PSG loop mark behind more than 255 bytes wraps (known finding). "
-              "Trusted: Lean kernel, hand-written model and spec, IEEE-754 binary64 semantics, g++/ASan/UBSan, harness.")
+              "level and the transpose replaced; a 2op base is always a 30-byte FM image (state invariant of read_song); every single PSG slide has the "
+              "slide shape in IEEE binary64 (C11_psg_slide_binary64: proved for binary64 written out in Lean, by an error bound on the rounded additions "
+              "plus kernel-evaluated tables of the 7874 steps and 16 start values), hence every PSG envelope that add_ins_psg accepts expands to the "
+              "written frames with sustain/loop marks at the written places (merging of equal frames, the 15-frame cap, the end/loop command and the "
+              "range check of the loop position are handled by the proof; C11_psg_binary64 has no hypothesis left), and it is rejected only when the loop "
+              "mark lies behind more than 255 bytes; pitch envelopes: node structure, the 256-node limit, the 16-bit step limit (no accepted node carries a "
+              "wrapped step), both read-back forms, vibrato, the loop-position check. C11_full_partial assembles the full PSG+pitch statement for every "
+              "arithmetic from two hypotheses (SlideOK, PitchExact). The model runs IEEE binary64 and is tied to mdsdrv.cpp byte for byte on the "
+              "generated definitions.")
+LEVEL_NOTE = ("Partial: the exact-decimal pitch clauses (PitchExact: start = floor(256*initial), written length, error below one step per frame) are "
+              "decided per generated definition by the independent decoder runPitchEnv + pitchMeets on the real bytes, not proved; SlideOK is proved "
+              "for Arith.b64 (binary64 written out in Lean), whose agreement with the hardware doubles is checked by the driver on every request (all "
+              "65280 single slides per thorough run) but not proved; token parsing (strtol/strtod) is tied by correspondence only. "
+              "Trusted: Lean kernel, hand-written model and spec, IEEE-754 binary64 semantics (Float and Arith.b64), g++/ASan/UBSan, harness.")
